@@ -252,6 +252,12 @@ func Issue(spec CertSpec, parent *Cert, signKey crypto.Signer) *Cert {
 	}
 	if signKey != nil {
 		sk = signKey
+		if parent != nil || spec.IssuerName != nil {
+			// CreateCertificate insists that the signing key matches parent.PublicKey
+			p2 := *parentX
+			p2.PublicKey = signKey.Public()
+			parentX = &p2
+		}
 	}
 	der, err := x509.CreateCertificate(rand.Reader, tmpl, parentX, key.Public(), sk)
 	if err != nil {
